@@ -211,3 +211,14 @@ def eea_load(ctx: Ctx, chk) -> None:
         chk.ok(rule, key, "load is inside try/except ValidationError -> raise InvalidMessageError", ctx.loc(listen, call))
     else:
         chk.refute(rule, key, "a schema ValidationError is not converted into InvalidMessageError in Gateway.listen", ctx.loc(listen, call))
+    # ... and building the rejection cannot itself fail for some rejected line (the empty line, a line of blanks ...)
+    ime = ctx.cls("aiomysensors.exceptions.InvalidMessageError")
+    entries = []
+    for k in ime.repo_mro():
+        for init in k.methods.get("__init__", []):
+            fr = Frame(ctx.I.make_callee(init, k), None)
+            entries.append((f"{k.name}.__init__", eea._apply_suppressions(eea.escapes(fr))))
+    if entries:
+        # the rejection of a *line* hands the constructor the text: a failure that needs a Message object as the
+        # argument (an attribute the Message class lacks) cannot happen here and is judged by C03
+        escape_rule(ctx, chk, rule, entries, lambda exc, site: site.kind == "no-attribute" and site.text.startswith("Message has no attribute"), eea)
